@@ -54,7 +54,7 @@ def history(draw):
     marks = [0]
 
     def lba_for(width, span):
-        top = min(cap, 1 << width) - span
+        top = min(cap - span, (1 << width) - 1)  # LBA + span within the medium, LBA within its field
         if top < 0:
             return None
         cands = [0, top]
@@ -270,6 +270,15 @@ def run_history(case, transport):
                            got=r.get("vpd_pages"))
                 obs.append(("inq", page))
             expect(len(tgt.log) == before + 1, "mismatch:commands_per_call", op=op, n=len(tgt.log) - before)
+            # the conformant target decoded the command the caller asked for
+            seen = tgt.log[-1]
+            want_name = {"w": "WRITE(%d)", "r": "READ(%d)", "ws": "WRITE SAME(%d)", "sync": "SYNCHRONIZE CACHE(%d)"}.get(k)
+            if want_name:
+                expect(seen.get("name") == want_name % op["v"], "mismatch:command_seen_by_target", op=op, seen=seen.get("name"))
+                f = seen.get("fields", {})
+                cnt = f.get("TRANSFER LENGTH", f.get("NUMBER OF LOGICAL BLOCKS"))
+                expect(f.get("LBA") == op["lba"] and cnt == op.get("tl", op.get("nb")), "mismatch:lba_or_count_seen_by_target",
+                       op=op, lba=f.get("LBA"), count=cnt)
             expect(not tgt.protocol_errors, "mismatch:transport_lengths_disagree_with_cdb", op=op,
                    errors=tgt.protocol_errors[:1])
             if op.get("lba", 0) >= 1 << 32:
